@@ -180,3 +180,15 @@ def alloc_problem(out):
         if t.startswith('DOUBLEFREE') or t.startswith('FOREIGNFREE') or t == 'FOREIGNDAMAGED': return 'allocator misuse: ' + t
         if t == 'LINKS=BAD' or t == 'ROOTLINKS': return 'sibling chain inconsistent after the call (%s)' % t
     return None
+
+
+def header_limit(repo, name, default):
+    """a limit macro of cJSON.h as the CURRENT source defines it (the generators aim at it; the model gets it through gen/Constants.v)"""
+    import re
+    try:
+        m = re.search(r'#\s*define\s+%s\s+(\d+)' % name, open(os.path.join(repo, 'cJSON.h')).read())
+        return int(m.group(1))
+    except Exception:
+        return default
+def nesting_limit(repo): return header_limit(repo, 'CJSON_NESTING_LIMIT', 1000)
+def circular_limit(repo): return header_limit(repo, 'CJSON_CIRCULAR_LIMIT', 10000)
